@@ -464,6 +464,43 @@ def decoder_buffer_sizes_are_what_is_held(prog, res):
     res.need(R, 2)
 
 
+SIZE_RESOLVERS = ("ZSTD_resolveEnableLdm", "ZSTD_resolveRowMatchFinderMode", "ZSTD_resolveMaxBlockSize")
+
+
+def estimates_resolve_what_the_context_resolves(prog, res):
+    """T9 (siblings): when a compression starts, the context turns every `auto` switch into a decision; three of them change
+    what ZSTD_resetCCtx_internal reserves (long distance matching tables, row tag table, block size).  The public estimate
+    functions that take a ZSTD_CCtx_params receive the same `auto` values: each must reach, through its calls, every
+    resolver of that kind that ZSTD_CCtx_init_compressStream2 calls."""
+    R = "T9.estimates-resolve-what-the-context-resolves"
+    init = prog.fn("ZSTD_CCtx_init_compressStream2")
+    want = [r for r in SIZE_RESOLVERS if r in init.callees()]
+    res.check(len(want) == 3, R, "context-resolvers", init.loc, "the context resolves %s" % ", ".join(want), "size-relevant resolvers called by the context: %s" % want)
+
+    def closure(name, depth=4):
+        seen, todo = set(), [(name, 0)]
+        while todo:
+            nm, d = todo.pop()
+            if nm in seen or not prog.has_fn(nm):
+                continue
+            seen.add(nm)
+            if d < depth:
+                for c in prog.fn(nm).callees():
+                    todo.append((c, d + 1))
+        return seen
+    for e in ("ZSTD_estimateCCtxSize_usingCCtxParams", "ZSTD_estimateCStreamSize_usingCCtxParams"):
+        f = prog.fn(e)
+        cl = set()
+        for c in f.callees():
+            cl.add(c)
+            cl |= closure(c)
+        for r in want:
+            res.check(r in cl, R, "%s:%s" % (e, r.replace("ZSTD_resolve", "")), f.loc, "reaches %s" % r,
+                      "%s never resolves %s: with the switch on `auto` the estimate sizes a context without what the starting compression then "
+                      "enables, and a static context of the estimated size fails with memory_allocation" % (e, r.replace("ZSTD_resolve", "")))
+    res.need(R, 7)
+
+
 def run(tier):
     res = Result("C14", tier)
     tus, info = extract(["compress", "decompress", "common"])
@@ -473,6 +510,7 @@ def run(tier):
     term_agreement(prog, res)
     estimate_probes(prog, res)
     resolved_against_final_cparams(prog, res)
+    estimates_resolve_what_the_context_resolves(prog, res)
     buffer_mode_pairing(prog, res)
     static_never_grows(prog, res)
     bump_allocator(prog, res)
